@@ -1534,6 +1534,13 @@ private:
                                 return val;
                             }
                             auto x = binary::big_to_native<uint64_t>(buf, sizeof(buf));
+                            if (x > static_cast<uint64_t>((std::numeric_limits<int64_t>::max)()))
+                            {
+                                // -1 - x is not representable as int64_t
+                                ec = cbor_errc::number_too_large;
+                                more_ = false;
+                                return val;
+                            }
                             val = static_cast<int64_t>(-1)- static_cast<int64_t>(x);
                             break;
                         }
@@ -1559,7 +1566,9 @@ private:
                     }
                     else
                     {
-                        // error;
+                        ec = cbor_errc::number_too_large;
+                        more_ = false;
+                        return 0;
                     }
                     
                     break;
